@@ -153,7 +153,22 @@ def falsify_program(ctx, case: Dict) -> bool:
                 if op[0] == "append":
                     fed = fed + op[1]
                 before = all_keys(h) if op[0] == "purge" and op2[1] in h.indicators else None
+                table = None
+                if op[0] == "recalculate":
+                    # recalculate([name]) reproduces the readings it replaces and touches nothing else
+                    table = {nm: (copy.deepcopy(i_.as_list()), all(i_.name in c.indicators for c in i_.candles))
+                             for nm, i_ in h.indicators.items()}
                 apply(h, None, tuple(op2[:3]) if op[0] == "calc_index" else tuple(op2), ms)
+                if table is not None:
+                    for nm, (was, full) in table.items():
+                        aimed = op2[1] is None or op2[1] == nm
+                        if aimed and not full:
+                            continue
+                        if nm in h.indicators and not E.same_value_list(h.indicators[nm].as_list(), was):
+                            bad = {"relation": "recalculate-changes-readings", "of": "the-recalculated" if aimed else "another-indicator"}
+                            break
+                    if bad:
+                        break
                 if before is not None:
                     # purge(name) removes that indicator's entries and nothing else
                     gone = set().union(*[b - a for b, a in zip(before, all_keys(h))]) if before else set()
